@@ -108,6 +108,12 @@ pub mod csv {
             }
         }
 
+        impl CrashWriter<std::fs::File> {
+            pub fn sync_all(&self) -> std::io::Result<()> {
+                self.inner.sync_all()
+            }
+        }
+
         impl<W: Write> Write for CrashWriter<W> {
             fn write(&mut self, buf: &[u8]) -> std::io::Result<usize> {
                 if let Some(limit) = self.limit {
